@@ -129,6 +129,10 @@ def run(chk: core.Check) -> None:
             rows = [(T.gen_line(rng, 3), rng.choice(T.REPS))]
             cols = [(None, max(1, sum(r for _, r in rows[0][0])))]
         t = T.table_from_rle(cols, rows)
+        # the column declarations differ from one another (styles), so that a column read from the wrong declaration shows
+        for ci, cel in enumerate(t._Element__element.iter(T.TB + "table-column")):
+            if rng.random() < 0.8:
+                cel.set(T.TB + "style-name", f"co{ci % 3}")
         g = T.grid_from_rle(cols, rows)
         W, H = g.ncols, len(g.rows)
         for _ in range(rng.randrange(3)):
@@ -239,6 +243,17 @@ def run(chk: core.Check) -> None:
                 check("get_columns", cls, [(x0 + i, None) for i in range(len(cls))], True, {"range": (x0, x1)})
                 if len(cls) != x1 - x0 + 1:
                     chk.fail({**rle, "range": (x0, x1), "yielded": len(cls)}, "get_columns(range) does not return exactly the columns of the range")
+                # a ranged read yields the columns the whole traversal yields at those positions (also when the range begins strictly
+                # inside a repeated column declaration that is followed by a different one)
+                full_cols = [c.serialize() for c in t.traverse_columns()]
+                for form, got_cols in (("get_columns(range)", t.get_columns((x0, x1))), ("traverse_columns(start, end)", list(t.traverse_columns(x0, x1))),
+                                       ("traverse_columns(start)", list(t.traverse_columns(x0)))):
+                    chk.count("getter", form + " vs the whole traversal")
+                    bad = [(c.x, c.serialize(), full_cols[c.x]) for c in got_cols if c.x is not None and c.x < len(full_cols) and c.serialize() != full_cols[c.x]]
+                    if bad or [c.x for c in got_cols] != list(range(x0, (x1 if "end" in form or "range" in form else W - 1) + 1)):
+                        chk.fail({**rle, "getter": form, "range": (x0, x1), "positions": [c.x for c in got_cols], "first_difference": bad[:1]},
+                                 f"{form}: not the columns the whole traversal yields at these positions")
+                        break
                 xc = rng.randrange(W)
                 cc = t.get_column_cells(xc)
                 check("get_column_cells", cc, [(xc, i) for i in range(len(cc))], False, {"x": xc})
